@@ -17,7 +17,7 @@ for d in sorted(glob.glob('/verif/seeded/*')):
         rows.append((name, meta['property'], 'PATCH-DOES-NOT-APPLY', r.stderr.strip()[:100])); continue
     t0 = time.time()
     try:
-        c = subprocess.run(['/verif/bin/turnvc', 'check', meta['property'], '-no-evidence'], capture_output=True, text=True, timeout=1500)
+        c = subprocess.run(['/verif/bin/turnvc', 'check', '-no-evidence', meta['property']], capture_output=True, text=True, timeout=1500)
         out = c.stdout
         first = [l for l in out.split('\n') if l.startswith('VIOLATION') or l.startswith('UNDECIDED') or l.startswith('UNSUPPORTED') or l.startswith('  failed')]
         rows.append((name, meta['property'], 'exit %d' % c.returncode, ' | '.join(x[:150] for x in first[:3]), '%.0fs' % (time.time() - t0)))
